@@ -485,36 +485,51 @@ func r3(c *core.Ctx, rov *core.Fn) {
 		}
 	}
 	c.Check("R3.capture", "readObjectValue/tee", reb.Pos(), topLevel, "the tee rebind is an unconditional top-level statement")
-	n := 0
-	core.Inspect(rov.Decl.Body, func(m ast.Node) bool {
-		call, ok := m.(*ast.CallExpr)
-		if !ok {
-			return true
-		}
-		f := core.CalleeFunc(info, call)
-		if f == nil {
-			return true
-		}
+	// every primitive read reachable from readObjectValue (through helpers) is made
+	// on the tee reader: its receiver, followed back through the helpers'
+	// parameters and receivers, is readObjectValue's own `r`, and the statement of
+	// readObjectValue through which it is reached comes after the rebind
+	fe := flow.New(c.Program)
+	isPrim := func(f *types.Func) bool {
 		name := core.FuncName(f)
 		_, p1 := spec.Prims[name]
 		_, p2 := spec.BufPrims[name]
-		if !p1 && !p2 {
-			return true
-		}
+		return p1 || p2
+	}
+	fe.Opaque = isPrim
+	g0 := cfgq.Of(c.Program, rov)
+	n := 0
+	for _, cs := range fe.Calls(g0, rov.Decl.Body, isPrim) {
 		n++
-		sel, _ := ast.Unparen(call.Fun).(*ast.SelectorExpr)
+		// every origin of the receiver's value passes through the rebind statement
 		okRecv := false
-		if sel != nil {
-			if id, ok := ast.Unparen(sel.X).(*ast.Ident); ok && info.Uses[id] == recv {
-				okRecv = true
+		if sel, ok := ast.Unparen(cs.Call.Fun).(*ast.SelectorExpr); ok {
+			vals := fe.Values(cs.Site, sel.X)
+			okRecv = len(vals) > 0
+			for _, v := range vals {
+				through := false
+				for _, st := range v.Sites {
+					if st.G == g0 && st.At.Node() == reb {
+						through = true
+					}
+				}
+				if !through || v.Unknown != "" {
+					okRecv = false
+				}
 			}
 		}
-		c.Check("R3.capture", fmt.Sprintf("readObjectValue/%s", f.Name()), call.Pos(), okRecv && call.Pos() > reb.End(),
-			fmt.Sprintf("%s must be called on the tee reader `r` (after the rebind): a read on the outer loader consumes bytes that are missing from the DUMP payload", f.Name()))
-		return true
-	})
-	if n < 25 {
-		c.Undecidedf("instances", "R3.capture", rov.Decl.Pos(), "only %d primitive reads found in readObjectValue, 29 confirmed", n)
+		_ = recv
+		pos := cs.Call.Pos()
+		if len(cs.Up) > 0 {
+			if nd := cs.Up[len(cs.Up)-1].At.Node(); nd != nil {
+				pos = nd.Pos()
+			}
+		}
+		c.Check("R3.capture", fmt.Sprintf("readObjectValue/%s", cs.Fn.Name()), cs.Call.Pos(), okRecv && pos > reb.End(),
+			fmt.Sprintf("%s must be called on the tee reader `r` (after the rebind): a read on the outer loader consumes bytes that are missing from the DUMP payload", cs.Fn.Name()))
+	}
+	if n < 15 {
+		c.Undecidedf("instances", "R3.capture", rov.Decl.Pos(), "only %d primitive reads reachable from readObjectValue, 29 confirmed on the pinned tree", n)
 	}
 	// returns
 	g := cfgq.Of(c.Program, rov)
@@ -567,28 +582,73 @@ func r5(c *core.Ctx, rov, nbe *core.Fn) {
 	info := rov.Pkg.TypesInfo
 	// who writes remainMember
 	pk := c.Pkg(pkg)
+	// functions that belong to readObjectValue: unexported helpers of the package all
+	// of whose callers are readObjectValue or such helpers
+	callers := map[*ast.FuncDecl][]*ast.FuncDecl{}
+	declOf := map[types.Object]*ast.FuncDecl{}
+	var decls []*ast.FuncDecl
 	for _, f := range pk.Syntax {
+		if core.IsTestFile(c.Fset, f) {
+			continue
+		}
 		for _, d := range f.Decls {
-			fd, ok := d.(*ast.FuncDecl)
-			if !ok || fd.Body == nil || fd == rov.Decl {
-				continue
+			if fd, ok := d.(*ast.FuncDecl); ok && fd.Body != nil {
+				decls = append(decls, fd)
+				declOf[info.Defs[fd.Name]] = fd
 			}
-			ast.Inspect(fd.Body, func(m ast.Node) bool {
-				switch as := m.(type) {
-				case *ast.AssignStmt:
-					for _, l := range as.Lhs {
-						if core.IsFieldNamed(info, l, "rdbReader", "remainMember") {
-							c.Failf("R5.chunk", "remainMember/foreign-writer/"+fd.Name.Name, as.Pos(), "remainMember is written outside readObjectValue: the continuation state of a chunked hash can be corrupted")
-						}
-					}
-				case *ast.IncDecStmt:
-					if core.IsFieldNamed(info, as.X, "rdbReader", "remainMember") {
-						c.Failf("R5.chunk", "remainMember/foreign-writer/"+fd.Name.Name, as.Pos(), "remainMember is written outside readObjectValue")
+		}
+	}
+	for _, fd := range decls {
+		ast.Inspect(fd.Body, func(m ast.Node) bool {
+			if call, ok := m.(*ast.CallExpr); ok {
+				if f := core.CalleeFunc(info, call); f != nil {
+					if callee := declOf[f]; callee != nil {
+						callers[callee] = append(callers[callee], fd)
 					}
 				}
-				return true
-			})
+			}
+			return true
+		})
+	}
+	owned := map[*ast.FuncDecl]bool{rov.Decl: true}
+	for changed := true; changed; {
+		changed = false
+		for _, fd := range decls {
+			if owned[fd] || ast.IsExported(fd.Name.Name) || len(callers[fd]) == 0 {
+				continue
+			}
+			all := true
+			for _, cl := range callers[fd] {
+				if !owned[cl] {
+					all = false
+				}
+			}
+			if all {
+				owned[fd] = true
+				changed = true
+			}
 		}
+	}
+	for _, fd := range decls {
+		if owned[fd] {
+			continue
+		}
+		fd := fd
+		ast.Inspect(fd.Body, func(m ast.Node) bool {
+			switch as := m.(type) {
+			case *ast.AssignStmt:
+				for _, l := range as.Lhs {
+					if core.IsFieldNamed(info, l, "rdbReader", "remainMember") {
+						c.Failf("R5.chunk", "remainMember/foreign-writer/"+fd.Name.Name, as.Pos(), "remainMember is written outside readObjectValue and its own helpers: the continuation state of a chunked hash can be corrupted")
+					}
+				}
+			case *ast.IncDecStmt:
+				if core.IsFieldNamed(info, as.X, "rdbReader", "remainMember") {
+					c.Failf("R5.chunk", "remainMember/foreign-writer/"+fd.Name.Name, as.Pos(), "remainMember is written outside readObjectValue and its own helpers")
+				}
+			}
+			return true
+		})
 	}
 	c.Okf("R5.chunk", "remainMember/single-writer", rov.Decl.Pos(), "scan of pkg/rdb for writers of remainMember done")
 	var tParam types.Object
